@@ -17,6 +17,7 @@ RULE = ("case = messy structure descriptor (isolated on-lattice atom / defective
         "distinct = SHA-1 of the descriptor; non-trivial = at least one cluster returned and (>= 2 clusters, or atoms left unassigned, or SBC merged clusters, "
         "had a multiply assigned atom, or removed an atom while cleaning - observed by wrapping the three private SBC passes from the harness)")
 ASSUMPTIONS = [
+    "resource bound: structures whose longest periodic cell vector exceeds 60x the smallest periodic cell height (strongly sheared descriptions of a small lattice) are discarded and counted - MatID needs gigabytes for them and a memory kill is not a verdict",
     "connectivity oracle: exact minimum-image distances (vlib/oracles/mic.py) on the caller's structure, edge iff d_mic - r_i - r_j <= bond_threshold + 1e-7",
     "radii: ASE covalent / vdW tables or the custom per-atom array given to SBC; elements restricted to those with both radii tabulated (fallbacks are C19's business)",
     "ValueError is accepted only when a zero cell vector lies along a periodic direction",
@@ -171,6 +172,9 @@ def run_case(desc):
     out = Outcome()
     s = messy.build(desc["structure"])
     p = desc["params"]
+    if messy.too_skewed(s):
+        out.discard = "resource-bound:strongly-sheared-cell"
+        return out
     nums = s.get_atomic_numbers()
     n = len(s)
     rarg, rad = radii_for(p, nums)
